@@ -219,7 +219,9 @@ def _include_subclasses_with_union_strategy(
     unstruct_hook = converter.get_unstructure_hook(final_union)
     struct_hook = converter.get_structure_hook(final_union)
 
-    for cl in union_classes:
+    # Ancestors first: the union of a class has to capture the first-pass hooks
+    # of its descendants, not the union hooks they are about to receive.
+    for cl in sorted(union_classes, key=lambda c: len(c.__mro__)):
         # In the second pass, we overwrite the hooks with the union hook.
 
         def cls_is_cl(cls, _cl=cl):
